@@ -133,6 +133,50 @@ def _concat_leaves(e, out) -> bool:
     return False
 
 
+def _intlike(e) -> bool:
+    return (isinstance(e, ast.Constant) and isinstance(e.value, int) and not isinstance(e.value, bool)) or (isinstance(e, ast.Call) and isinstance(e.func, ast.Name) and e.func.id in ("len", "int") and not e.keywords)
+
+
+def _percent_to_fstring(node):
+    """'{%d}\n' % len(x)  ->  f'{{{len(x)}}}\n'   (plain %s of anything, plain %d of an int-valued expression)"""
+    if not (isinstance(node.left, ast.Constant) and isinstance(node.left.value, str)):
+        return node
+    import re as _re
+
+    fmt = node.left.value
+    parts = _re.split(r"(%[sd%])", fmt)
+    if "%" in "".join(p for p in parts if not _re.fullmatch(r"%[sd%]", p)):
+        return node  # a conversion this rewrite does not know
+    n_args = sum(1 for p in parts if p in ("%s", "%d"))
+    if isinstance(node.right, ast.Tuple):
+        args = list(node.right.elts)
+    elif n_args == 1 and isinstance(node.right, (ast.Call, ast.Constant, ast.Attribute, ast.Subscript, ast.JoinedStr)) and not (isinstance(node.right, ast.Constant) and isinstance(node.right.value, tuple)):
+        # a call / attribute could still be a tuple at run time; only take forms that are plainly scalar
+        if not (_intlike(node.right) or isinstance(node.right, (ast.Constant, ast.JoinedStr))):
+            return node
+        args = [node.right]
+    else:
+        return node
+    if len(args) != n_args or n_args == 0:
+        return node
+    vals: list = []
+    it = iter(args)
+    for p in parts:
+        if p == "%%":
+            p = "%"
+        if p in ("%s", "%d"):
+            a = next(it)
+            if p == "%d" and not _intlike(a):
+                return node
+            vals.append(ast.FormattedValue(value=a, conversion=-1, format_spec=None))
+        elif p:
+            if vals and isinstance(vals[-1], ast.Constant):
+                vals[-1] = ast.Constant(value=vals[-1].value + p)
+            else:
+                vals.append(ast.Constant(value=p))
+    return ast.copy_location(ast.JoinedStr(values=vals), node)
+
+
 def _concat_to_fstring(node):
     """'{' + str(n) + '}'  ->  f'{{{n}}}'   (a + chain of str constants, f-strings and str(x) calls is that f-string)."""
     if not (isinstance(node, ast.BinOp) and isinstance(node.op, ast.Add)):
@@ -166,8 +210,25 @@ class _Expr(ast.NodeTransformer):
             return ast.copy_location(ast.Compare(left=node.comparators[0], ops=[_MIRROR[type(node.ops[0])]()], comparators=[node.left]), node)
         return node
 
+    _EAGER_CONSUMERS = ("extend", "sorted", "join", "sum", "min", "max", "tuple", "set", "frozenset", "list", "update")
+
+    def visit_Call(self, node):
+        self.generic_visit(node)
+        # f(<generator expression>)  ->  f([list comprehension])   for callees that consume the whole iterable at once
+        if len(node.args) >= 1 and isinstance(node.args[0], ast.GeneratorExp) and not node.args[0].generators[0].is_async:
+            name = node.func.attr if isinstance(node.func, ast.Attribute) else (node.func.id if isinstance(node.func, ast.Name) else None)
+            if name in self._EAGER_CONSUMERS and all(_pure(g.iter) for g in node.args[0].generators) and _pure(node.args[0].elt):
+                g = node.args[0]
+                comp = ast.copy_location(ast.ListComp(elt=g.elt, generators=g.generators), g)
+                if name == "list" and isinstance(node.func, ast.Name) and len(node.args) == 1 and not node.keywords:
+                    return comp
+                node.args[0] = comp
+        return node
+
     def visit_BinOp(self, node):
         self.generic_visit(node)
+        if isinstance(node.op, ast.Mod):
+            return _percent_to_fstring(node)
         return _concat_to_fstring(node)
 
     def visit_UnaryOp(self, node):
@@ -244,6 +305,8 @@ class _Stmts:
 
     def block1(self, stmts, in_loop, owner):
         stmts = [self.stmt(s) for s in stmts]
+        stmts = self.tuple_split(stmts)
+        stmts = self.index_get(stmts)
         stmts = self.enumerate_start(stmts)
         stmts = self.single_exit(stmts)
         stmts = self.flatten_else(stmts)
@@ -301,6 +364,11 @@ class _Stmts:
         if isinstance(s, ast.If):
             s.body = [self.stmt(x) for x in s.body]
             s.orelse = [self.stmt(x) for x in s.orelse]
+            # if a: if b: S   ->   if a and b: S
+            if not s.orelse and len(s.body) == 1 and isinstance(s.body[0], ast.If) and not s.body[0].orelse:
+                inner = s.body[0]
+                vals = (list(s.test.values) if isinstance(s.test, ast.BoolOp) and isinstance(s.test.op, ast.And) else [s.test]) + (list(inner.test.values) if isinstance(inner.test, ast.BoolOp) and isinstance(inner.test.op, ast.And) else [inner.test])
+                return self.stmt(ast.copy_location(ast.If(test=ast.copy_location(ast.BoolOp(op=ast.And(), values=vals), s.test), body=inner.body, orelse=[]), s))
             a, b = _single_assign(s.body), _single_assign(s.orelse)
             if a is not None and b is not None and _dump(a.targets[0]) == _dump(b.targets[0]) and _pure(s.test):
                 return ast.copy_location(ast.Assign(targets=[a.targets[0]], value=ifexp(s.test, a.value, b.value)), s)
@@ -311,6 +379,50 @@ class _Stmts:
         return s
 
     # ------------------------------------------------------------------
+    def tuple_split(self, stmts):
+        """a, b = e1, e2   ->   a = e1 ; b = e2      (e1, e2 pure and neither reads the other's target)"""
+        out = []
+        for s in stmts:
+            if isinstance(s, ast.Assign) and len(s.targets) == 1 and isinstance(s.targets[0], ast.Tuple) and isinstance(s.value, ast.Tuple) and len(s.value.elts) == len(s.targets[0].elts) and all(isinstance(t, ast.Name) for t in s.targets[0].elts):
+                names = [t.id for t in s.targets[0].elts]
+                if len(set(names)) == len(names) and all(_pure(v) and not any(_uses(v, n) for n in names) for v in s.value.elts):
+                    for t, v in zip(s.targets[0].elts, s.value.elts):
+                        out.append(ast.copy_location(ast.Assign(targets=[t], value=v, type_comment=None), s))
+                    continue
+            out.append(s)
+        return out
+
+    # the reverse-index dicts of Mailbox map ints to ints (never to None): `d.get(k) is None` is `k not in d`
+    _INT_INDEX = ("_uid_to_idx", "_msg_key_to_idx")
+
+    def index_get(self, stmts):
+        """x = self._uid_to_idx.get(k) ; if x is None: <jump>   ->   if k not in self._uid_to_idx: <jump> ; x = self._uid_to_idx[k]"""
+        out = []
+        i = 0
+        while i < len(stmts):
+            s = stmts[i]
+            nxt = stmts[i + 1] if i + 1 < len(stmts) else None
+            if (
+                isinstance(s, ast.Assign) and len(s.targets) == 1 and isinstance(s.targets[0], ast.Name)
+                and isinstance(s.value, ast.Call) and isinstance(s.value.func, ast.Attribute) and s.value.func.attr == "get" and len(s.value.args) == 1 and not s.value.keywords
+                and isinstance(s.value.func.value, ast.Attribute) and s.value.func.value.attr in self._INT_INDEX
+                and isinstance(s.value.args[0], (ast.Name, ast.Constant))
+                and isinstance(nxt, ast.If) and not nxt.orelse and _ends_in_jump(nxt.body)
+                and isinstance(nxt.test, ast.Compare) and len(nxt.test.ops) == 1 and isinstance(nxt.test.ops[0], ast.Is)
+                and isinstance(nxt.test.left, ast.Name) and nxt.test.left.id == s.targets[0].id
+                and isinstance(nxt.test.comparators[0], ast.Constant) and nxt.test.comparators[0].value is None
+                and not any(_uses(b, s.targets[0].id) for b in nxt.body)
+            ):
+                d, k = s.value.func.value, s.value.args[0]
+                test = ast.copy_location(ast.Compare(left=k, ops=[ast.NotIn()], comparators=[d]), nxt.test)
+                out.append(ast.copy_location(ast.If(test=test, body=nxt.body, orelse=[]), nxt))
+                out.append(ast.copy_location(ast.Assign(targets=[s.targets[0]], value=ast.Subscript(value=copy.deepcopy(d), slice=copy.deepcopy(k), ctx=ast.Load()), type_comment=None), s))
+                i += 2
+                continue
+            out.append(s)
+            i += 1
+        return out
+
     def enumerate_start(self, stmts):
         """for n, x in enumerate(xs, start=K)  ->  for n__i, x in enumerate(xs): n = n__i + K ; ..."""
         for s in stmts:
@@ -476,7 +588,7 @@ class _Stmts:
                 fn is not None and nxt is not None
                 and isinstance(s, ast.Assign) and len(s.targets) == 1 and isinstance(s.targets[0], ast.Name)
                 and not isinstance(s.value, (ast.Await, ast.Yield, ast.YieldFrom, ast.Constant, ast.List, ast.Dict, ast.Set, ast.Tuple))
-                and (not isinstance(s.value, ast.ListComp) or isinstance(nxt, ast.Return))
+                and (not isinstance(s.value, ast.ListComp) or isinstance(nxt, ast.Return) or (isinstance(nxt, ast.Assign) and isinstance(nxt.value, ast.Name) and nxt.value.id == s.targets[0].id))
                 and _pure(s.value)
             ):
                 t = s.targets[0].id
@@ -694,6 +806,85 @@ def _name_counts(fn) -> dict[str, int]:
     return out
 
 
+def _preorder(fn):
+    """Nodes of the function body in source order (statement lists in order; within a statement, fields in order), not
+    descending into nested scopes."""
+    out = []
+
+    def go(n):
+        out.append(n)
+        for c in ast.iter_child_nodes(n):
+            if isinstance(c, (ast.FunctionDef, ast.AsyncFunctionDef, ast.ClassDef, ast.Lambda)):
+                out.append(c)
+                for x in ast.walk(c):
+                    if x is not c:
+                        out.append(x)
+                continue
+            go(c)
+
+    for s in fn.body:
+        go(s)
+    return out
+
+
+def _coalesce(fn) -> None:
+    """y = sorted(x) (list(x), set(x), ...)  where the local x is never touched again and the local y has not been touched before (and the statement is
+    not in a loop): x and y are one variable with two names - call it y throughout.  (`ks = []; ...; keys = sorted(ks)` is
+    `keys = []; ...; keys = sorted(keys)`.)"""
+    params = {a.arg for a in fn.args.posonlyargs + fn.args.args + fn.args.kwonlyargs}
+    if fn.args.vararg:
+        params.add(fn.args.vararg.arg)
+    if fn.args.kwarg:
+        params.add(fn.args.kwarg.arg)
+    for _ in range(6):
+        order = _preorder(fn)
+        pos = {id(n): i for i, n in enumerate(order)}
+        occ: dict[str, list[int]] = {}
+        banned = set(params)
+        for n in order:
+            if isinstance(n, ast.Name):
+                occ.setdefault(n.id, []).append(pos[id(n)])
+            elif isinstance(n, (ast.Global, ast.Nonlocal)):
+                banned.update(n.names)
+            elif isinstance(n, ast.ExceptHandler) and n.name:
+                banned.add(n.name)
+            elif isinstance(n, (ast.FunctionDef, ast.AsyncFunctionDef, ast.ClassDef, ast.Lambda)):
+                for x in ast.walk(n):
+                    if isinstance(x, ast.Name):
+                        banned.add(x.id)
+        in_loop = set()
+        for n in order:
+            if isinstance(n, (ast.For, ast.AsyncFor, ast.While)):
+                for x in ast.walk(n):
+                    in_loop.add(id(x))
+        done = False
+        for n in order:
+            if not (isinstance(n, ast.Assign) and len(n.targets) == 1 and isinstance(n.targets[0], ast.Name) and id(n) not in in_loop):
+                continue
+            y = n.targets[0].id
+            # only the "same collection, re-ordered / copied" idiom: y = sorted(x, ...) / list(x) / set(x) / tuple(x)
+            if y in banned or not (isinstance(n.value, ast.Call) and isinstance(n.value.func, ast.Name) and n.value.func.id in ("sorted", "list", "set", "tuple", "frozenset") and n.value.args and isinstance(n.value.args[0], ast.Name)):
+                continue
+            first, last = pos[id(n)], max(pos[id(x)] for x in ast.walk(n))
+            if min(occ.get(y, [first])) < first:
+                continue
+            for x in {n.value.args[0].id}:
+                if x == y or x in banned or x not in occ or max(occ[x]) > last:
+                    continue
+                # x must be a local of this function (stored somewhere before)
+                if not any(isinstance(m, ast.Name) and m.id == x and isinstance(m.ctx, ast.Store) for m in order[:first]):
+                    continue
+                for m in order:
+                    if isinstance(m, ast.Name) and m.id == x:
+                        m.id = y
+                done = True
+                break
+            if done:
+                break
+        if not done:
+            return
+
+
 def canon_function(fn, temp_inlining: bool = True):
     st = _Stmts(temp_inlining)
     st._fn = fn
@@ -703,6 +894,8 @@ def canon_function(fn, temp_inlining: bool = True):
         if sub is not fn and isinstance(sub, (ast.FunctionDef, ast.AsyncFunctionDef)):
             pass
     st.run(fn)
+    if temp_inlining:
+        _coalesce(fn)
     return fn
 
 
